@@ -1870,6 +1870,7 @@ def stages(ctx):
 
     return [("probes", probes),
             ("abort-nested-coroutines", lambda: C16_cancel.probe(ctx)),
+            ("middleware-deferred", lambda: C16_cancel.probe_middleware_exits_before_deferred_resolver(ctx)),
             ("exhaustive", exhaustive),
             ("random", random_cases)]
 
@@ -1891,6 +1892,9 @@ def replay(ctx, data):
         before = len(ctx.found)
         run(ctx, replaying=data["input"].get("stage"))
         return len(ctx.found) == before
+    if data.get("input", {}).get("probe") == "middleware-deferred":
+        from corr import C16_cancel
+        return C16_cancel.probe_middleware_exits_before_deferred_resolver(ctx)
     if data.get("input", {}).get("probe") == "abort-nested-coroutines":
         from corr import C16_cancel
         return C16_cancel.probe(ctx, only=data["input"].get("only"))
